@@ -413,6 +413,25 @@ theorem C08_convergence_solo_shaped (env : Env) (cfg : Cfg) (hmin : 1 ≤ cfg.mi
   C08_convergence_solo env cfg hmin hI anyhost n hn ops hw ha hstart p targets hp hne ht
     (solo_shape env cfg hmin hinj (Int.le_of_lt hI) ops n hn hw ha hshape)
 
+/-- **C08 for the chain of an on-schedule producer history, every prefix start, the property's bound** — composition of
+    `C08_converges_within_bound`, `C05_solo_history` and `solo_shape`: no acceptance and no shape hypothesis about the
+    final chain is left, only about the chain the history starts from -/
+theorem C08_converges_within_bound_solo (env : Env) (cfg : Cfg) (hmin : 1 ≤ cfg.minFee) (hI : 0 < cfg.interval)
+    (hinj : Function.Injective env.hash)
+    (anyhost : Ledger) (n : Node) (hn : Reachable env cfg n) (ops : List Op) (hw : ∀ o ∈ ops, o.WF)
+    (ha : Along env cfg (SoloStep cfg) n ops)
+    (hstart : AcceptedFrom env cfg anyhost [] n.led.blocks n.led.lastTs) (hshape : Shape cfg n.led.blocks)
+    (p : Nat) (targets : List String) (hp : 3 ≤ p) (hne : targets ≠ []) (ht : ∀ t ∈ targets, t ≠ "host")
+    (hL : 3 ≤ (Ru.run env cfg n ops).led.blocks.length) :
+    ∀ (k : Nat) (l l' : Ledger), 1 ≤ k → k ≤ (Ru.run env cfg n ops).led.blocks.length →
+      l.blocks = (Ru.run env cfg n ops).led.blocks.take k → Derived l →
+      C08.RoundsFrom env cfg (Ru.run env cfg n ops).led.blocks p targets (Ru.run env cfg n ops).led.lastTs
+        (((Ru.run env cfg n ops).led.blocks.length + (p - 2)) / (p - 1) + 1) l l' →
+      l'.blocks = (Ru.run env cfg n ops).led.blocks ∧ Derived l' :=
+  C08_converges_within_bound env cfg hI anyhost _ p targets _ hp
+    (solo_shape env cfg hmin hinj (Int.le_of_lt hI) ops n hn hw ha hshape) hL hne ht
+    (C05_solo_history env cfg hmin (Int.le_of_lt hI) anyhost [] ops n hn hw ha hstart)
+
 /-- acceptance from height 0 does not depend on who verifies: what a verifier that checks every block accepts, every
     verifier accepts (C05's "a peer that asks for the whole chain", for every peer at once) -/
 theorem C05_accepted_by_every_verifier (env : Env) (cfg : Cfg) (host : Ledger) (bs : List Block) (t : Int)
